@@ -16,7 +16,7 @@ time: with the same tzinfo object they compare equal and hash equal although the
 instant written in different zones / as different strings.
 
 script = [step, ...]   (JSON)
-  ["new", v, id, ts, dur, data]       v := Event(id=, timestamp=, duration=, data=)
+  ["new", v, id, ts, dur, data]       v := Event(id=, timestamp=, duration=, data=); dur / data null = argument left out
   ["set", v, field, value]            v.<field> = value          (field: id | timestamp | duration | data)
   ["parse", ts]                       _timestamp_parse(ts)       (the anchored function on its own)
   ["rebuild", out, v, how]            out := Event(**v) (how = "event") | Event(**json.loads(v.to_json_str())) ("json")
@@ -137,10 +137,15 @@ def run_script(script, c13, Event, parse, validator):
         failed = None            # (var, given, exception) of a constructor / setter that raised
         if op == "new":
             _, v, i, ts, du, x = st
-            given = {"id": i, "ts": ts, "dur": du, "data": copy.deepcopy(x)}
+            given = {"id": i, "ts": ts, "dur": du if du is not None else {"kind": "td", "us": 0},
+                     "data": copy.deepcopy(x) if x is not None else {}}
+            kw = {}
+            if du is not None:
+                kw["duration"] = materialise_dur(du, c13)[1]
+            if x is not None:           # null = the argument is left out (the constructor's own default)
+                kw["data"] = copy.deepcopy(x)
             try:
-                live[v] = [Event(id=i, timestamp=materialise_ts(ts, c13)[1], duration=materialise_dur(du, c13)[1],
-                                 data=copy.deepcopy(x)), given]
+                live[v] = [Event(id=i, timestamp=materialise_ts(ts, c13)[1], **kw), given]
             except Exception as ex:  # noqa: BLE001
                 failed = (v, given, ex)
         elif op == "set":
@@ -341,6 +346,10 @@ def boundary_sessions(tab):
                 ["set", "d", "timestamp", {"form": "str", "text": "2031-01-01T00:00:00.000999+01:00",
                                             "instant": [1924988400000999, 1], "off": 3600 * 10**6}],
                 ["set", "c", "duration", DURS[5]], ["set", "b", "id", None], ["rebuild", "e", "d", "json"]])
+    # constructor defaults: events built without data / duration, one of them written to in place
+    out.append([["new", "a", 1, {"form": "dt", "utc": u, "off": 0}, None, None], ["put", "a", "k", 1],
+                ["new", "b", 2, {"form": "dt", "utc": u + 1000, "off": 0}, None, None], ["put", "b", "app", "z"],
+                ["new", "c", None, {"form": "dt", "utc": u, "off": 0}, DURS[3], None], ["rebuild", "d", "c", "json"]])
     # an event whose data is large (longer than any chunk constant of a serialiser)
     big = {"keys": {"k%05d" % i: i for i in range(10_001)}, "list": list(range(10_050)), "text": "x" * 70_000}
     out.append([["new", "a", 1, {"form": "dt", "utc": u, "off": 0}, td, big], ["rebuild", "b", "a", "json"], ["rebuild", "c", "a", "event"]])
@@ -375,7 +384,7 @@ def random_session(rng, tab):
         if r < 0.45 or not names:
             v = "e%d" % len(names)
             names.append(v)
-            script.append(["new", v, rng.choice([None, 1, 7]), ts(), rng.choice(DURS), rng.choice(DATA)])
+            script.append(["new", v, rng.choice([None, 1, 7]), ts(), rng.choice(DURS + [None]), rng.choice(DATA + [None])])
         elif r < 0.70:
             script.append(["set", rng.choice(names), "timestamp", ts()])
         elif r < 0.78:
